@@ -26,6 +26,10 @@ CHECKS = {
   "runtime monitoring: round-trip / injectivity / order oracles over an exhaustive small key space plus random and extreme keys; bounds observed through the real FSM",
   "All 780 keys over {00,01,02,FE,FF}^1..4 and all their pairs are checked exhaustively, plus >=150k random/extreme keys and pairs and sorted triples; wildcard and bookkeeping isolation additionally through range reads/deletes with extreme bounds on the real state machine, followed by reopen.",
   "Accepted key length 1..1024 bytes; the streaming key.Decoder (unused by production code) is observed but not judged."),
+ "C04": ("fault_enumeration",
+  "runtime monitoring with fault injection: crash-simulating strict in-memory FS (crash before every k-th mutating FS operation), recovery judged against the model's log prefixes",
+  "Every mutating file-system operation boundary of seeded scenarios (first open, apply, Sync, close/reopen, snapshot recovery in all format pairs, stopped recovery) is used as a crash point (all k for small scenarios, every distinct site + random k for larger ones, plus second crashes during recovery); after each crash a new FSM is opened and must report an index >= the last completed Sync, show exactly the model state at that index, and reach the no-crash final state after replay with per-entry results equal to the model's.",
+  "Fault model as stated in the property (strict MemFS: unsynced data and directory entries lost, synced ones kept); no torn writes / partial persistence; pebble trusted as a library."),
 }
 
 NOT_YET = {}
